@@ -18,6 +18,8 @@ EVIDENCE = VERIF / "evidence"
 REPLAYS = VERIF / "replays"
 
 os.environ.setdefault("TUMFL_VERIF", "1")
+if hasattr(sys, "set_int_max_str_digits"):
+    sys.set_int_max_str_digits(0)   # exact values of numerals like 1e5000 are long integers
 if str(REPO) not in sys.path:
     sys.path.insert(0, str(REPO))
 
